@@ -101,6 +101,23 @@ __CPROVER_ensures(__CPROVER_return_value < 0 ==> (__CPROVER_return_value == -1 &
 __CPROVER_ensures(xv_accept_calls == __CPROVER_old(xv_accept_calls) + 1 && xv_accept_fd == sockfd)
 ;
 
+/* ut_close / ut_close_if_valid (env/fd.h carries TRUSTED copies of these two for the units that cannot include util.c: this is the real text) */
+#define XVU_CLOSED(fd) (xv_close_calls == __CPROVER_old(xv_close_calls) + 1 && xv_close_fd == (fd) && !xv_fdt.e[fd].open && xv_open_cnt == __CPROVER_old(xv_open_cnt) - 1 && \
+                        (xv_fk != (fd) ==> XVU_B(xv_fdt.e[xv_fk].open) == XVU_B(__CPROVER_old(xv_fdt.e[xv_fk].open))))
+void ut_close(int fd)
+__CPROVER_requires(XVU_FD_REQ(fd) && xv_fk >= 0 && xv_fk < XV_NFD)
+__CPROVER_assigns(xv_errno, XV_CLOSE_ASSIGNS)
+/* PO[C08] ut_close.closes_once_keeps_errno: exactly this descriptor is closed, once; errno is as before whatever close() reported */
+__CPROVER_ensures(XVU_CLOSED(fd) && xv_errno == __CPROVER_old(xv_errno))
+;
+void ut_close_if_valid(int fd)
+__CPROVER_requires((fd < 0 || XVU_FD_REQ(fd)) && XV_FD_GHOST_RANGE && xv_fk >= 0 && xv_fk < XV_NFD)
+__CPROVER_assigns(xv_errno, XV_CLOSE_ASSIGNS)
+/* PO[C08] ut_close_if_valid.negative_is_a_no_op: a negative descriptor is left alone, a valid one is closed once; errno is as before */
+__CPROVER_ensures((fd < 0 ? (xv_close_calls == __CPROVER_old(xv_close_calls) && xv_open_cnt == __CPROVER_old(xv_open_cnt) && XVU_B(xv_fdt.e[xv_fk].open) == XVU_B(__CPROVER_old(xv_fdt.e[xv_fk].open))) \
+                          : XVU_CLOSED(fd)) && xv_errno == __CPROVER_old(xv_errno))
+;
+
 /* ================================================================================================== ut_vaprintf / ut_aprintf
  * append formatted text to the C string in buf[0..capacity): never a byte outside the buffer, the result is NUL-terminated, the
  * old text is kept.  (vsnprintf model: any would-be length; see env/utilctl_env.h) */
@@ -280,6 +297,7 @@ __CPROVER_ensures(xvu_str[2].base == buf && xvu_str[2].len == XVU_DIR_LEN(capaci
 #define XVU_DERIVE_REQ(ctl_dir, buf, capacity) (capacity >= 1 && capacity <= XVU_CAP_MAX && xvu_str[2].base == ctl_dir && xvu_str[2].len < capacity && \
         __CPROVER_r_ok(ctl_dir, xvu_str[2].len + 1) && ctl_dir[xvu_str[2].len] == 0 && __CPROVER_w_ok(buf, capacity))
 #endif
+#ifndef XVU_DERIVE_INT
 void ctl_derive_path(const char *ctl_dir, pid_t creator_pid, int64_t sock_id, char *buf, size_t capacity)
 __CPROVER_requires(XVU_DERIVE_REQ(ctl_dir, buf, capacity))
 __CPROVER_assigns(__CPROVER_object_upto(buf, capacity), xvu_fmt, xvu_str[3], xvu_dp)
@@ -290,6 +308,22 @@ __CPROVER_ensures((size_t)xvu_fmt.ret < capacity ==> (xvu_str[3].base == buf && 
 __CPROVER_ensures(xvu_dp.pid == creator_pid && xvu_dp.ref == sock_id && xvu_dp.calls == __CPROVER_old(xvu_dp.calls) + 1)
 #endif
 ;
+#else
+/* -DXVU_DERIVE_INT: the contract for a ctl_derive_path that can say "does not fit" (int result: 0, or -1 with ENAMETOOLONG) -- the
+ * shape of the repair proposed for the defect the void version has (abort / silently truncated path); switch the two jobs
+ * ctl_derive_path and xcmc_open over with this define once /repo has it. */
+int ctl_derive_path(const char *ctl_dir, pid_t creator_pid, int64_t sock_id, char *buf, size_t capacity)
+__CPROVER_requires(XVU_DERIVE_REQ(ctl_dir, buf, capacity))
+__CPROVER_assigns(xv_errno, __CPROVER_object_upto(buf, capacity), xvu_fmt, xvu_str[3], xvu_dp)
+__CPROVER_ensures(xvu_fmt.calls == __CPROVER_old(xvu_fmt.calls) + 1 && xvu_fmt.cap == capacity && xvu_fmt.ret >= 0)
+/* PO[C08,C14] ctl_derive_path.complete_path: success iff the text fitted; then it ends in a NUL inside buf; otherwise -1/ENAMETOOLONG -- never a truncated path, never an abort */
+__CPROVER_ensures((size_t)xvu_fmt.ret < capacity ? (__CPROVER_return_value == 0 && buf[xvu_fmt.ret] == 0) : (__CPROVER_return_value == -1 && xv_errno == ENAMETOOLONG))
+__CPROVER_ensures(__CPROVER_return_value == 0 ==> (xvu_str[3].base == buf && xvu_str[3].len == (size_t)xvu_fmt.ret && (XVU_IN(0, xv_j, (long)xvu_fmt.ret) ==> buf[xv_j] != 0)))
+#ifdef XVU_DERIVE_ASSUMED
+__CPROVER_ensures(xvu_dp.pid == creator_pid && xvu_dp.ref == sock_id && xvu_dp.calls == __CPROVER_old(xvu_dp.calls) + 1)
+#endif
+;
+#endif
 
 /* ctl_parse_info: a directory entry name -> (pid, socket reference).  strtol/strtoll are libc (model: any value, any number of
  * characters consumed inside the string).  XVU_PARSE_LEN: strlen(filename) -- a ghost constant where the contract is enforced,
@@ -410,7 +444,10 @@ __CPROVER_ensures((xvu_g_len < XCM_ATTR_NAME_MAX && XVU_SEND_OK && xvu_rx.full &
 #endif
 void xvu_attr_cb(const char *attr_name, enum xcm_attr_type type, void *attr_value, size_t attr_len, void *cb_data)
 /* PO[C14] xcmc_attr_get_all.callback_gets_a_terminated_name_and_a_bounded_value */
-__CPROVER_requires(attr_len <= CTL_ATTR_VALUE_MAX && __CPROVER_r_ok(attr_value, attr_len == 0 ? 1 : attr_len) && __CPROVER_r_ok(attr_name, XCM_ATTR_NAME_MAX) && XVU_CB_NAME_OK(attr_name))
+__CPROVER_requires(attr_len <= CTL_ATTR_VALUE_MAX)
+__CPROVER_requires(__CPROVER_r_ok(attr_value, attr_len == 0 ? 1 : attr_len))
+__CPROVER_requires(__CPROVER_r_ok(attr_name, XCM_ATTR_NAME_MAX))
+__CPROVER_requires(XVU_CB_NAME_OK(attr_name))
 __CPROVER_assigns(xvu_cb)
 __CPROVER_ensures(xvu_cb.calls == __CPROVER_old(xvu_cb.calls) + 1)
 ;
